@@ -85,6 +85,8 @@ func descByArgs(t *fnTable, name string, args ...string) *tables.Descriptor {
 }
 
 func runC13(c *core.Ctx) {
+	c.Rule("COALT", "COALESCE's static type admits NULL unless an argument provably never is NULL")
+	checkCoalesceType(c, "COALT")
 	c.Rule("BOUNDS", "layout fixer: a slice indexed by a loop position has the ranged slice's length")
 	checkLoopIndexBounds(c, "BOUNDS", [][2]string{{"execution", "calculateMapping"}, {"execution", "(*ObjectLayoutFixer).fixLayout"}, {"execution", "NewObjectLayoutFixer"}})
 	c.Rule("TUPLE1", "a parsed value tuple stays a tuple for every length (x IN (e) is a one-element list)")
